@@ -264,6 +264,42 @@ pub fn run(a: &Args) {
         cases.push(Case { request, observed,
             oracle: if foreign == 0 { None } else { Some(format!("{foreign} of {n_calls} concurrent select calls on one adapter came back with a target that was not the caller's first candidate (requests mixed up between callers)")) }, class: "select:concurrent".into() });
     }
+    // the model's concrete IPv4 text functions against std::net: every host text of the lists above, then generated
+    // ones — canonical texts over the octet classes and near-misses of them (leading zeros, 256 and up, missing, empty
+    // and extra groups, blanks, signs, other digits and separators)
+    {
+        let n_v4 = (a.cases / 3).max(200);
+        let mut texts: Vec<(String, &'static str)> = IPS.iter().chain(BAD_HOSTS).map(|s| (s.to_string(), "listed")).collect();
+        const OCT: &[&str] = &["0", "1", "9", "10", "99", "100", "199", "200", "249", "250", "255"];
+        const NEAR: &[&str] = &["00", "01", "000", "001", "010", "256", "260", "300", "999", "1000", "0255", "", " 1", "1 ", "+1", "-1", "1a", "a", "0x1", "\u{663}", "1,2", "1:2", "2 5", "25 ", "\t7"];
+        for i in 0..n_v4 {
+            let mut groups: Vec<String> = (0..4).map(|_| if rng.chance(1, 2) { rng.pick(OCT).to_string() } else { rng.below(256).to_string() }).collect();
+            let valid = i % 2 == 0;
+            if !valid {
+                match rng.below(8) {
+                    0 => { groups.pop(); }
+                    1 => groups.push(rng.pick(OCT).to_string()),
+                    2 => { let k = rng.below(4) as usize; groups[k] = String::new(); }
+                    3 => { let k = rng.below(4) as usize; groups[k] = format!("0{}", groups[k]); }
+                    4 => { let k = rng.below(4) as usize; groups[k] = (256 + rng.below(800)).to_string(); }
+                    _ => { let k = rng.below(4) as usize; groups[k] = rng.pick(NEAR).to_string(); }
+                }
+            }
+            let mut t = groups.join(".");
+            if !valid { match rng.below(12) { 0 => t.push('.'), 1 => t.insert(0, '.'), 2 => t.push(' '), 3 => t.insert(0, ' '), 4 => t = t.replacen('.', ",", 1), 5 => t = t.replacen('.', "..", 1), 6 => t.push_str(":80"), 7 => t.push('\n'), _ => {} } }
+            texts.push((t, if valid { "canonical" } else { "near-miss" }));
+        }
+        for (t, kind) in texts {
+            let std_says = t.parse::<std::net::Ipv4Addr>().ok();
+            let mut why = vec![];
+            // std's own agreement between the two parsers and the printer (an oracle on the platform, kept separate from the model)
+            let as_ip = t.parse::<IpAddr>().ok();
+            if let Some(v4) = std_says { if as_ip != Some(IpAddr::V4(v4)) { why.push(format!("IpAddr::from_str and Ipv4Addr::from_str differ on {t:?}")); } }
+            let observed = match std_says { None => "v4 -".to_string(), Some(x) => { let o = x.octets(); format!("v4 {}.{}.{}.{} {}", o[0], o[1], o[2], o[3], hex(x.to_string().as_bytes())) } };
+            cases.push(Case { request: format!("c19.v4 t={}", hex(t.as_bytes())), observed, oracle: if why.is_empty() { None } else { Some(why.join("; ")) },
+                class: format!("v4text:{kind}:{}", if std_says.is_some() { "accepted" } else { "refused" }) });
+        }
+    }
     write_cases(&a.out, &cases).expect("write cases");
     println!("c19: {} calls", cases.len());
 }
